@@ -1,6 +1,6 @@
 ---- MODULE Trace_Layouts ----
 (* Validation of loads of independently rendered files (C03) and of their units (C04).        *)
-EXTENDS Layouts, UnitsData, Json, IOUtils, TLCExt
+EXTENDS Layouts, UnitsData, AtomOrbitals, Json, IOUtils, TLCExt
 Traces == JsonDeserialize(IOEnv.TRACE_FILE)
 N == Len(Traces)
 VARIABLES tid, l
@@ -8,8 +8,20 @@ tvars == <<tid, l>>
 ASSUME \A t \in 1..N : TLCSet(t, 0)
 TInit == tid \in 1..N /\ l = 1
 \* every attribute the file determines equals the value in the file under the published layout and unit
+\* atomic orbitals (CP2K ATOM): the tagged coefficient of radial function ic of record r is found in the loaded matrix exactly on
+\* the cells AtomOrbitals prescribes, in every spin block, and nowhere else is the matrix non-zero
+RECURSIVE CellCount(_, _), FunCount(_, _, _)
+CellCount(ps, i) == IF i = 0 THEN 0 ELSE CellCount(ps, i - 1) + Deg(ps[i].l)
+FunCount(nfun, recs, i) == IF i = 0 THEN 0 ELSE FunCount(nfun, recs, i - 1) + nfun[recs[i] + 1]
+PlaceOK(a) == /\ a.nbasis = NBasis(a.nfun)
+              /\ a.norb = NOrb(a.recs)
+              /\ \A i \in 1..Len(a.places) : LET p == a.places[i] IN
+                    {p.cells[j] : j \in 1..Len(p.cells)} = {<<Row(a.nfun, p.l, p.ic, im), Col(a.recs, p.r, im)>> : im \in 0..(2 * p.l)}
+              /\ Len(a.places) = a.nspin * FunCount(a.nfun, a.recs, Len(a.recs))    \* one tag per (spin, record, radial function)
+              /\ a.nonzero = CellCount(a.places, Len(a.places))
 LoadOK(e) == /\ e.load = "ok"
              /\ \A k \in LoadKeys(e.fmt) : e.rel[k] = "same"
+             /\ ("atom" \in DOMAIN e => PlaceOK(e.atom))
 \* the same physical model described in two formats loads to the same numbers (C04)
 CrossOK(e) == e.load = "ok" /\ \A i \in 1..Len(e.pairs) : e.pairs[i].rel = "same"
 \* a conversion constant of iodata.utils equals the independently stated CODATA value to the stated digits
